@@ -353,7 +353,8 @@ class Stream:
     async def recv_trailers(self) -> _Headers:
         if self.trailers is None:
             await self.trailers_received.wait()
-        assert self.trailers is not None
+        if self.trailers is None:
+            return []  # stream was ended without trailers
         return self.trailers
 
     async def send_request(
@@ -477,6 +478,8 @@ class Stream:
 
     def __ended__(self) -> None:
         self.buffer.eof()
+        # there will be no trailers after the end of a stream
+        self.trailers_received.set()
 
     def __terminated__(self, reason: str) -> None:
         if self.wrapper is not None:
